@@ -14,6 +14,7 @@ import (
 	"net"
 	"os"
 	"runtime"
+	"sync"
 	"syscall"
 	"time"
 	"unsafe"
@@ -55,6 +56,9 @@ type poller struct {
 	pollType string // listener or io poller
 
 	shutdown bool // state
+
+	mux       sync.Mutex // guards fdsClosed
+	fdsClosed bool       // epfd and evtfd have been closed by the poller goroutine
 
 	// whether poller is used for listener.
 	isListener bool
@@ -181,8 +185,14 @@ func (p *poller) start() {
 		p.acceptorLoop()
 	} else {
 		defer func() {
+			// stop() must not write its wake-up to a descriptor number
+			// that this goroutine has already closed (and that may have
+			// been reused by then).
+			p.mux.Lock()
+			p.fdsClosed = true
 			_ = syscall.Close(p.epfd)
 			_ = syscall.Close(p.evtfd)
+			p.mux.Unlock()
 		}()
 		p.readWriteLoop()
 	}
@@ -392,7 +402,11 @@ func (p *poller) stop() {
 		}
 	} else {
 		n := uint64(1)
-		_, _ = syscall.Write(p.evtfd, (*(*[8]byte)(unsafe.Pointer(&n)))[:])
+		p.mux.Lock()
+		if !p.fdsClosed {
+			_, _ = syscall.Write(p.evtfd, (*(*[8]byte)(unsafe.Pointer(&n)))[:])
+		}
+		p.mux.Unlock()
 	}
 }
 
